@@ -498,6 +498,6 @@ class NgramVectorizer(BaseEstimator, TransformerMixin):
             bottom_freq[right_to_joint_index_map[x]] = other._token_frequencies_[x]
         joint_vectorizer._token_frequencies_ = np.mean([top_freq, bottom_freq], axis=0)
         joint_vectorizer._inverse_token_dictionary_ = (
-            joint_vectorizer.column_label_dictionary_
+            joint_vectorizer.column_index_dictionary_
         )
         return joint_vectorizer
